@@ -648,3 +648,84 @@ Example ex_plain_decode_inverse :
   decode_plain (hex_enc [0; 255; 65]) = Some [0; 255; 65] /\ decode_plain (b64_enc [65; 66]) = Some [65; 66] /\
   decode_plain (text_enc ex_oct [0; 34; 92; 10; 255; 65]) = Some [0; 34; 92; 10; 255; 65].
 Proof. vm_compute. repeat split. Qed.
+
+(* ================================================================== *)
+(* (5) Strengthening, session 3 (seed C07-9): the tar stream inside a   *)
+(*     compressed container (gzip / xz / bzip2 / zstd)                 *)
+(* ================================================================== *)
+(* tar2sqfs wraps standard input in istream_xfrm over a decompressor driver when it sees a magic.  The
+   driver loops (lib/xfrm/src/{gzip,xz,bzip2,zstd}.c process_data) and the reader (istream.c precache) are
+   C15's model (coq/C15/XfrmModel.v, tied by props/C15).  C07's share: on EVERY input byte string Z -- no
+   hypothesis that Z is a sequence of members: truncated anywhere, damaged anywhere, garbage -- for every
+   window schedule ws of the wrapped stream and every sequence of requests of the tar reader, the reader
+   returns (never RFuel: each iteration consumes input, produces output or returns), and a clean end of file
+   is reported only if Z is a sequence of complete members and acc is their whole content.  Hence a malformed
+   container ends in RErr -- tar2sqfs prints "internal compressor error", exits 1, removes the output --,
+   never in an endless loop (seed C07-9: `continue` with nothing consumed and nothing produced in bzip2.c)
+   and never in a silent short archive.  Hypotheses: C15's contract of the library (one call of inflate /
+   lzma_code, BZ2_bzDecompress, ZSTD_decompressStream); they are met by the toy codec (Examples below) and
+   checked against the real libraries by props/C15; at tool level by props/C07/wrap.py (part_wrapped). *)
+From SqfsV Require Import C15.XfrmModel C15.XfrmSpec C15.XfrmBase C15.XfrmDrvZlib C15.XfrmDrvBzip2
+  C15.XfrmDrvZstd C15.XfrmIStreamProofs C15.ToyCodec C15.ToyFormat C15.ToyDecProofs C15.XfrmTop
+  C07.WrappedStreams.
+
+Theorem wrapped_gzip_xz_terminates :
+  forall (Member : list N -> list N -> Prop), format_ok Member ->
+  forall (S : Type) (C : codec S) (Rep : S -> list N -> list N -> Prop),
+  dec_contract Member S C Rep true -> ok_progresses S C Rep -> mid_ok S C Rep ->
+  forall bufsz, (0 < bufsz)%nat -> forall st0, Rep st0 [] [] ->
+  forall Z ws ops acc e s',
+  reader (mk_zlib C true) bufsz (istream_init st0 Z ws) ops [] = (acc, e, s') ->
+  e <> RFuel /\ (e = REof -> Stream Member Z acc).
+Proof. exact wrapped_gzip_xz_terminates_l. Qed.
+Print Assumptions wrapped_gzip_xz_terminates.
+
+Theorem wrapped_bzip2_terminates :
+  forall (Member : list N -> list N -> Prop), format_ok Member ->
+  forall (S : Type) (C : codec S) (Rep : S -> list N -> list N -> Prop),
+  dec_contract Member S C Rep true -> never_buf S C Rep -> mid_ok S C Rep ->
+  forall bufsz, (0 < bufsz)%nat -> forall st0, Rep st0 [] [] ->
+  forall Z ws ops acc e s',
+  reader (mk_bzip2 C true) bufsz (istream_init st0 Z ws) ops [] = (acc, e, s') ->
+  e <> RFuel /\ (e = REof -> Stream Member Z acc).
+Proof. exact wrapped_bzip2_terminates_l. Qed.
+Print Assumptions wrapped_bzip2_terminates.
+
+Theorem wrapped_zstd_terminates :
+  forall (Member : list N -> list N -> Prop), format_ok Member ->
+  forall (S : Type) (C : codec S) (Rep : S -> list N -> list N -> Prop),
+  dec_contract Member S C Rep false -> end_progresses S C Rep ->
+  forall bufsz, (0 < bufsz)%nat -> forall st0, Rep st0 [] [] ->
+  forall Z ws ops acc e s',
+  reader (mk_zstd C true) bufsz (istream_init (st0, false) Z ws) ops [] = (acc, e, s') ->
+  e <> RFuel /\ (e = REof -> Stream Member Z acc).
+Proof. exact wrapped_zstd_terminates_l. Qed.
+Print Assumptions wrapped_zstd_terminates.
+
+(* non-vacuity: the toy codec of C15 meets the hypotheses of the three statements ... *)
+Example ex_wrapped_hyps :
+  format_ok TMember /\
+  (dec_contract TMember tdst toy_dec TRep true /\ ok_progresses tdst toy_dec TRep /\ mid_ok tdst toy_dec TRep /\
+   TRep (toy_dec_init 1 1 true) [] []) /\
+  (dec_contract TMember tdst (bzify _ (noflush _ toy_dec)) TRep true /\ never_buf tdst (bzify _ (noflush _ toy_dec)) TRep /\
+   mid_ok tdst (bzify _ (noflush _ toy_dec)) TRep) /\
+  (dec_contract TMember tdst (noflush _ toy_dec) TRep0 false /\ end_progresses tdst (noflush _ toy_dec) TRep0 /\
+   TRep0 (toy_dec_init 0 0 false) [] []).
+Proof. exact wrapped_hyps_toy. Qed.
+
+(* ... and on it: a two-member container (C15's ex_z: 17 bytes) cut inside the second member, cut inside the
+   magic of the first, with one byte damaged, and followed by garbage ends in RErr on each of the three driver
+   loops; cut exactly between the members it is a shorter well-formed container (REof) *)
+Definition wz : list N := [167; 1; 3; 97; 98; 99; 2; 5; 0; 122; 0; 136] ++ [167; 3; 3; 0; 113].
+Definition wrapped_end (drv : driver tdst) (z : list N) : rend :=
+  snd (fst (reader drv 4 (istream_init (toy_dec_init 2 3 false) z []) (repeat (1%nat, 1%nat) 20) [])).
+Definition wrapped_end_zstd (z : list N) : rend :=
+  snd (fst (reader toy_zstd_dec 4 (istream_init (toy_dec_init 2 3 false, false) z []) (repeat (1%nat, 1%nat) 20) [])).
+Example ex_wrapped_malformed :
+  let bad := [firstn 15 wz; firstn 1 wz ++ []; firstn 11 wz ++ 137 :: skipn 12 wz; wz ++ [0]] in
+  map (wrapped_end toy_gzip_dec) bad = [RErr; RErr; RErr; RErr] /\
+  map (wrapped_end toy_bzip2_dec) bad = [RErr; RErr; RErr; RErr] /\
+  map wrapped_end_zstd bad = [RErr; RErr; RErr; RErr] /\
+  (wrapped_end toy_gzip_dec wz, wrapped_end toy_bzip2_dec wz, wrapped_end_zstd wz) = (REof, REof, REof) /\
+  (wrapped_end toy_gzip_dec (firstn 12 wz), wrapped_end toy_bzip2_dec (firstn 12 wz), wrapped_end_zstd (firstn 12 wz)) = (REof, REof, REof).
+Proof. vm_compute. repeat split. Qed.
